@@ -80,8 +80,12 @@ fn source(r: &mut Rng) -> Value {
                    "filter": *r.pick(&["Nearest", "Bilinear"]),
                    "m": [d, 0, 0, d, r.range(-8, 8), r.range(-8, 8)], "mden": d * *r.pick(&[1i64, 1, 2])})
         }
-        7 => json!({"kind": "linear", "stops": stops(r), "start": [r.range(-8, 24), r.range(-8, 24)],
-                    "end": [r.range(-8, 40), r.range(-8, 40)], "spread": *r.pick(&["Pad", "Repeat", "Reflect"])}),
+        7 => {
+            let st = [r.range(-8, 24), r.range(-8, 24)];
+            // one linear gradient in five is degenerate (start == end): whatever it paints must still be a valid colour
+            let en = if r.chance(1, 5) { st } else { [r.range(-8, 40), r.range(-8, 40)] };
+            json!({"kind": "linear", "stops": stops(r), "start": st, "end": en, "spread": *r.pick(&["Pad", "Repeat", "Reflect"])})
+        }
         _ => json!({"kind": "radial", "stops": stops(r), "center": [r.range(-8, 40), r.range(-8, 40)],
                     "radius": r.range(2, 40), "spread": *r.pick(&["Pad", "Repeat", "Reflect"])}),
     }
